@@ -1,13 +1,22 @@
 ENGINES = [
     {"name": "gridmc", "path": "mc/checks", "serves_properties": ["C18"],
      "kind_free_text": "exhaustive enumeration of finite option lattices / member lists crossed with small branch-covering data alphabets, each point compared with an oracle independent of REBOUND"},
-    {"name": "histmc", "path": "mc/histmc.py", "serves_properties": ["C05", "C14"],
+    {"name": "histmc", "path": "mc/histmc.py", "serves_properties": ["C05", "C06", "C14"],
      "kind_free_text": "explicit-state breadth-first exploration of operation histories on the real library object (state = history, canonical digest de-duplication, reference-model oracle on every transition)"},
 ]
 NOTES = ("All checks explore the real implementation rebuilt from /repo's working tree (mc/build.py); no abstract model is used, "
          "so traces_validated_against_impl equals the number of executed transitions. known_findings.json lists repaired defects (fixed:) and recorded ones.")
 NOT_APPLICABLE = {}
 CHECKS = {
+    "C06": {
+        "engine": "histmc", "category": "model_checking",
+        "technique": "exhaustive enumeration of operation histories (depth-bounded) with a snapshot after every operation, all snapshots re-read after every append and compared with a reference list of serialised live states; cadence model checked against a lock-step reference run",
+        "text": "Every sequence over a 21-operation structural alphabet (step, add, remove, remove-all, switch to 8 integrators, reset_integrator, change dt/softening, edit one particle, add variation, MEGNO, merging collision) "
+                "up to depth 3 (quick) / 4 (thorough) from 2-4 start integrators is executed on the real ASan-built library with a manual snapshot after every operation; after EVERY append the archive is re-opened and nblobs, t[k] and every snapshot k "
+                "are compared field-wise with the serialised live state recorded when snapshot k was taken. One long history crosses the 1024-entry index growth. Automatic cadence (interval dt/2.5dt/10dt, step 1/3) x 8 fixed-step integrators x leg patterns x both directions x manual snapshots "
+                "is compared with the prescribed cadence and with a lock-step reference run.",
+        "note": "Histories outside documented usage (editing particles while variational particles exist) are filtered by a stated predicate; the function-pointer flag field and wall-time fields are not compared.",
+    },
     "C05": {
         "engine": "histmc", "category": "model_checking",
         "technique": "exhaustive enumeration of save points (option lattice x operation histories up to a depth) on the real library, each restored and continued in lock-step with the original; plus exhaustive single-field lattice",
